@@ -47,6 +47,16 @@ def _object_dispatch(ck, fx):
             ok_a = by_name and is_recv
             why_a = "own method looked up by the call's name: %s; frame slot 0 is the ORIGINAL receiver: %s" % (by_name, is_recv)
     ck.ob("R14.dispatch", "object|own method first", ok_a, "", why_a)
+    # every lookup in the receiver's method table uses exactly the call's name (no alias / fallback spelling:
+    # a member that merely has a related name must not shadow the method an ancestor defines)
+    keys = set()
+    for p in paths:
+        for e in V._all_effects(p["eff"]):
+            if e["k"] == "call" and V.suffix(e) in ("get", "get_mut", "contains_key", "get_index_of", "get_full") and len(e["args"]) > 2 and "'methods'" in fmt_term(e["args"][1]):
+                keys.add(e["args"][2])
+    only_name = keys == {("var", "method_name")}
+    ck.ob("R14.dispatch", "object|methods are looked up by the call's own name only", only_name, "",
+          "lookup keys used on the method table: %s" % sorted(fmt_term(k)[:60] for k in keys))
     # (c) delegation: same name, same arguments, to the parent
     ok_c = False
     why_c = "no path delegates to the parent"
